@@ -8,7 +8,9 @@ import (
 	"go/constant"
 	"go/token"
 	"go/types"
+	"reflect"
 	"strings"
+	"unsafe"
 
 	"golang.org/x/tools/go/ssa"
 )
@@ -20,6 +22,8 @@ type IG struct {
 	Fns     []*ssa.Function             // Fn plus the single-call helpers inlined into the graph (igx)
 	Bind    map[ssa.Value]ssa.Value     // parameter of an inlined helper -> the argument at its (single) call site
 	Inlined map[*ssa.Call]*ssa.Function // call sites spliced into the graph
+	virt    []*vIf                      // virtual branch nodes (a decision parked in a boolean local, resolved per incoming path)
+	virtIdx map[*vIf]int
 	Nodes   []ssa.Instruction
 	Idx     map[ssa.Instruction]int
 	Succ    [][]int
@@ -57,7 +61,7 @@ func (p *Program) ig0(fn *ssa.Function) *IG {
 				continue
 			}
 			for _, s := range b.Succs {
-				g.Succ[n] = append(g.Succ[n], first[threadJump(b, s)])
+				g.Succ[n] = append(g.Succ[n], g.targetNode(p.resolveEdge(b, s), first))
 			}
 			switch b.Instrs[i].(type) {
 			case *ssa.Return:
@@ -67,6 +71,7 @@ func (p *Program) ig0(fn *ssa.Function) *IG {
 			}
 		}
 	}
+	g.finishVirtual(first)
 	for n, ss := range g.Succ {
 		for _, s := range ss {
 			g.Pred[s] = append(g.Pred[s], n)
@@ -637,7 +642,202 @@ func ifsOf(fn *ssa.Function) []*ssa.If {
 			out = append(out, i)
 		}
 	}
+	// virtual branches of fn (see resolveEdge): created when the function's graph is built
+	if theProgram != nil {
+		theProgram.ig0(fn)
+		for _, v := range theProgram.vifs[fn] {
+			out = append(out, v.If)
+		}
+	}
 	return out
+}
+
+// ---- path-sensitive resolution of parked decisions -------------------------------------------
+//
+// `hasWork := a || (b && c); if !hasWork { return }` compiles to join blocks that consist of phis (and negations) only and
+// end in a jump or in a branch on such a phi. For an edge entering such a block the value of the phi is known: a boolean
+// constant (control continues at one successor: jump threading) or a value computed earlier on that path (the comparison
+// `c`). In the second case the edge leads to a VIRTUAL branch node testing that value, whose successors are the (resolved)
+// successors of the join block's branch. Edge predicates then stay exact for code that parks a decision in a local.
+
+type vIf struct {
+	If   *ssa.If
+	T, F edgeTarget
+}
+
+type edgeTarget struct {
+	blk *ssa.BasicBlock
+	v   *vIf
+}
+
+var theProgram *Program
+
+func (p *Program) resolveEdge(from, to *ssa.BasicBlock) edgeTarget {
+	if p.edgeMemo == nil {
+		p.edgeMemo = map[[2]*ssa.BasicBlock]edgeTarget{}
+		p.vifs = map[*ssa.Function][]*vIf{}
+	}
+	k := [2]*ssa.BasicBlock{from, to}
+	if t, ok := p.edgeMemo[k]; ok {
+		return t
+	}
+	t := p.resolveEdgeEnv(from, to, map[ssa.Value]ssa.Value{}, 0)
+	p.edgeMemo[k] = t
+	return t
+}
+
+func (p *Program) resolveEdgeEnv(from, to *ssa.BasicBlock, env map[ssa.Value]ssa.Value, depth int) edgeTarget {
+	for ; depth < 8; depth++ {
+		if len(to.Instrs) == 0 {
+			return edgeTarget{blk: to}
+		}
+		// pure join block: phis and negations only, then jump / if
+		last := to.Instrs[len(to.Instrs)-1]
+		_, isIf := last.(*ssa.If)
+		_, isJump := last.(*ssa.Jump)
+		if !isIf && !isJump {
+			return edgeTarget{blk: to}
+		}
+		pure, hasPhi := true, false
+		for _, in := range to.Instrs[:len(to.Instrs)-1] {
+			switch x := in.(type) {
+			case *ssa.Phi:
+				hasPhi = true
+			case *ssa.UnOp:
+				if x.Op != token.NOT {
+					pure = false
+				}
+			case *ssa.DebugRef:
+			default:
+				pure = false
+			}
+		}
+		if !pure || !hasPhi {
+			return edgeTarget{blk: to}
+		}
+		pi := -1
+		for i, pr := range to.Preds {
+			if pr == from {
+				if pi >= 0 {
+					return edgeTarget{blk: to} // both branches of one If lead here: ambiguous
+				}
+				pi = i
+			}
+		}
+		if pi < 0 {
+			return edgeTarget{blk: to}
+		}
+		// a jump-only join whose phis are used outside the chain of joins must stay on the path (its values matter later);
+		// skipping it is harmless for reachability: phis are not effects
+		env2 := map[ssa.Value]ssa.Value{}
+		for k, v := range env {
+			env2[k] = v
+		}
+		for _, in := range to.Instrs {
+			if ph, ok := in.(*ssa.Phi); ok && pi < len(ph.Edges) {
+				v := ph.Edges[pi]
+				if w, ok := env[v]; ok {
+					v = w
+				}
+				env2[ph] = v
+			}
+		}
+		if isJump {
+			from, to, env = to, to.Succs[0], env2
+			continue
+		}
+		ifi := last.(*ssa.If)
+		cond, neg := ifi.Cond, false
+		for {
+			if u, ok := cond.(*ssa.UnOp); ok && u.Op == token.NOT && u.Block() == to {
+				cond, neg = u.X, !neg
+				continue
+			}
+			break
+		}
+		if w, ok := env2[cond]; ok {
+			cond = w
+		}
+		if ph, ok := cond.(*ssa.Phi); ok && ph.Block() == to {
+			return edgeTarget{blk: to} // unresolved
+		}
+		if c, ok := cond.(*ssa.Const); ok {
+			b, isB := constBool(c)
+			if !isB {
+				return edgeTarget{blk: to}
+			}
+			if neg {
+				b = !b
+			}
+			k := 1
+			if b {
+				k = 0
+			}
+			from, to, env = to, to.Succs[k], env2
+			continue
+		}
+		if cond == ifi.Cond && !neg {
+			return edgeTarget{blk: to} // the branch tests a value that is not a phi of this block: an ordinary block
+		}
+		// a value computed earlier on this path decides the branch
+		v := &vIf{If: &ssa.If{Cond: cond}}
+		setInstrBlock(v.If, to)
+		tk, fk := 0, 1
+		if neg {
+			tk, fk = 1, 0
+		}
+		v.T = p.resolveEdgeEnv(to, to.Succs[tk], env2, depth+1)
+		v.F = p.resolveEdgeEnv(to, to.Succs[fk], env2, depth+1)
+		fn := to.Parent()
+		p.vifs[fn] = append(p.vifs[fn], v)
+		return edgeTarget{v: v}
+	}
+	return edgeTarget{blk: to}
+}
+
+// setInstrBlock sets the unexported block of a synthesised instruction so that Block()/Parent() work.
+func setInstrBlock(in *ssa.If, b *ssa.BasicBlock) {
+	f := reflect.ValueOf(in).Elem().FieldByName("anInstruction").FieldByName("block")
+	*(**ssa.BasicBlock)(unsafe.Pointer(f.UnsafeAddr())) = b
+}
+
+// targetNode: the node index of an edge target; virtual branch nodes are allocated after the real ones.
+func (g *IG) targetNode(t edgeTarget, first map[*ssa.BasicBlock]int) int {
+	if t.v == nil {
+		return first[t.blk]
+	}
+	if g.virtIdx == nil {
+		g.virtIdx = map[*vIf]int{}
+	}
+	if i, ok := g.virtIdx[t.v]; ok {
+		return i
+	}
+	i := len(g.Nodes)
+	g.virtIdx[t.v] = i
+	g.virt = append(g.virt, t.v)
+	g.Nodes = append(g.Nodes, t.v.If)
+	g.Idx[t.v.If] = i
+	g.Succ = append(g.Succ, nil)
+	if g.Pred != nil {
+		g.Pred = append(g.Pred, nil)
+	}
+	return i
+}
+
+// finishVirtual wires the successors of the virtual branch nodes (which may allocate further virtual nodes).
+func (g *IG) finishVirtual(first map[*ssa.BasicBlock]int) {
+	for k := 0; k < len(g.virt); k++ {
+		v := g.virt[k]
+		i := g.virtIdx[v]
+		if len(g.Succ[i]) > 0 {
+			continue
+		}
+		t, f := g.targetNode(v.T, first), g.targetNode(v.F, first)
+		g.Succ[i] = []int{t, f}
+	}
+	for len(g.Pred) < len(g.Nodes) {
+		g.Pred = append(g.Pred, nil)
+	}
 }
 
 // edgesWhere returns the branch edges of fn on which pred(fact) holds.
@@ -1003,7 +1203,7 @@ func (p *Program) igxSkip(fn *ssa.Function, skip map[*ssa.Function]bool) *IG {
 								if holds {
 									k = 0
 								}
-								g.Succ[rn] = append(g.Succ[rn], first[threadJump(b, b.Succs[k])])
+								g.Succ[rn] = append(g.Succ[rn], g.targetNode(p.resolveEdge(b, b.Succs[k]), first))
 								threaded = true
 							}
 						}
@@ -1018,7 +1218,7 @@ func (p *Program) igxSkip(fn *ssa.Function, skip map[*ssa.Function]bool) *IG {
 					continue
 				}
 				for _, sb := range b.Succs {
-					g.Succ[n] = append(g.Succ[n], first[threadJump(b, sb)])
+					g.Succ[n] = append(g.Succ[n], g.targetNode(p.resolveEdge(b, sb), first))
 				}
 				switch in.(type) {
 				case *ssa.Return:
@@ -1031,6 +1231,7 @@ func (p *Program) igxSkip(fn *ssa.Function, skip map[*ssa.Function]bool) *IG {
 			}
 		}
 	}
+	g.finishVirtual(first)
 	for n, ss := range g.Succ {
 		for _, t := range ss {
 			g.Pred[t] = append(g.Pred[t], n)
@@ -1331,4 +1532,26 @@ func (p *Program) freshValue(v ssa.Value, depth int) bool {
 		return n > 0
 	}
 	return false
+}
+
+// values: the values v may stand for in this graph — v itself (stripped, helper parameters resolved), or, when v is the
+// result of an inlined single-result helper, that helper's return operands.
+func (g *IG) values(v ssa.Value) []ssa.Value { return g.valuesDepth(v, 0) }
+
+func (g *IG) valuesDepth(v ssa.Value, depth int) []ssa.Value {
+	w := g.res(v)
+	if c, ok := w.(*ssa.Call); ok && depth < 4 {
+		if y := g.Inlined[c]; y != nil && y.Signature.Results().Len() == 1 {
+			var out []ssa.Value
+			for _, b := range y.Blocks {
+				if ret, isR := b.Instrs[len(b.Instrs)-1].(*ssa.Return); isR {
+					out = append(out, g.valuesDepth(retOperand(ret, 0), depth+1)...)
+				}
+			}
+			if len(out) > 0 {
+				return out
+			}
+		}
+	}
+	return []ssa.Value{w}
 }
